@@ -240,7 +240,7 @@ func (processor *packetProcessor) Process(ctx context.Context, session *sessions
 	case *packet.Disconnect:
 		return ErrSessionDisconnected
 	case *packet.PingReq:
-		metadata, err := processor.state.SessionMetadatas().ByClientID(session.ClientID())
+		metadata, err := processor.state.SessionMetadatas().ByClientID(session.MountPoint(), session.ClientID())
 		if err != nil || metadata.SessionID != session.ID() {
 			// Session has reconnected on another peer.
 			return ErrSessionDisconnected
